@@ -498,8 +498,8 @@ func c11Schedules(c *sup.Ctx) *sup.Space {
 		hs := c11Harnesses(c)
 		w := c.NewW(name)
 		defer c.Merge(w)
-		bound := sup.Pick(c, 2, 3)
-		var maxExec int64 = sup.Pick(c, int64(400000), int64(6000000))
+		bound := sup.Pick(c, 3, 4)
+		var maxExec int64 = sup.Pick(c, int64(2000000), int64(20000000))
 		for hi, h := range hs {
 			if hi%c.Shards != c.Shard {
 				continue
@@ -596,7 +596,7 @@ func init() {
 		ID:           "C11",
 		Level:        "model_checking",
 		Technique:    "stateless deviation-bounded exploration of goroutine schedules and virtual-timer firing points on the rewritten real datalog package (controlled scheduler), plus exhaustive enumeration of limit configurations against a reference evaluator",
-		Rule:         "schedules: for ~35 harnesses (World.Run on programs with 0-3 matches, 1-3 rounds, recursion, limits hit, expression errors on first/second match, invalid rules with 0-3 matches; World.QueryRule; Authorize with and without blocks) every interleaving of the evaluation goroutine, the per-rule producer goroutine and the caller, every firing point of the timeout timer and every choice of a ready select case within 2 (quick) / 3 (thorough) deviations; per execution: no goroutine blocked forever at quiescence, no panic, Run=nil only with the full fixpoint, outcome in the set the reference allows (timeout only if the timer fired before the caller returned). limits: every program of a 100+ program set x every maxFacts in 0..n+2 x every maxIterations in 0..k+3 on the default schedule against the reference's fact counts per round. entry points: AuthorizerFor / Authorizer / NewVerifier x limits binding in the authority world, a first and a second block world. states = executions, transitions = scheduling steps. Non-trivial = harness (schedules), case whose outcome is an error (limits).",
+		Rule:         "schedules: for ~35 harnesses (World.Run on programs with 0-3 matches, 1-3 rounds, recursion, limits hit, expression errors on first/second match, invalid rules with 0-3 matches; World.QueryRule; Authorize with and without blocks) every interleaving of the evaluation goroutine, the per-rule producer goroutine and the caller, every firing point of the timeout timer and every choice of a ready select case within 3 (quick) / 4 (thorough) deviations; per execution: no goroutine blocked forever at quiescence, no panic, Run=nil only with the full fixpoint, outcome in the set the reference allows (timeout only if the timer fired before the caller returned). limits: every program of a 100+ program set x every maxFacts in 0..n+2 x every maxIterations in 0..k+3 on the default schedule against the reference's fact counts per round. entry points: AuthorizerFor / Authorizer / NewVerifier x limits binding in the authority world, a first and a second block world. states = executions, transitions = scheduling steps. Non-trivial = harness (schedules), case whose outcome is an error (limits).",
 		Assume:       []string{"the scheduler is sequentially consistent and preempts only at synchronisation operations (channel operations, go statements, select, context timers); code between two such points runs atomically", "the explored program is a source-to-source rewrite of the current /repo/datalog sources (tools/rewrite); a construct the rewriter cannot model stops the check with UNSUPPORTED", "real-time latency of a timeout is not measured: under virtual time the caller returns at its first step after the timer fires"},
 		Procs:        func(string) int { return 16 },
 		SingleThread: true,
